@@ -4,4 +4,5 @@ let () =
   | [| _; "buf" |] -> Run_buf.run ()
   | [| _; "cmp" |] -> Run_cmp.run ()
   | [| _; "bufmut" |] -> Run_bufmut.run ()
+  | [| _; "heap" |] -> Run_heap.run ()
   | _ -> prerr_endline "usage: modelrun <engine>"; exit 2
